@@ -42,12 +42,14 @@ class Live:
         self.wrt = ["alpha", "beta", "v", "rho", "Mach_number", "re", "cg", "omega", "wing_mesh", "tail_mesh"]
 
     def _build_aerog(self):
-        self.surfs = [dict(name="wing", nx=2, ny=4, sym=True, side="R", shape="all", visc=True, ground=True, klam=1)]
+        # two ground-effect surfaces (right-half wing, nx = 3; left-half tail): per-surface state of the ground-plane branch
+        self.surfs = [dict(name="wing", nx=3, ny=4, sym=True, side="R", shape="all", visc=True, ground=True, klam=1),
+                      dict(name="tail", nx=2, ny=3, sym=True, side="L", shape="tapered", span=4.0, chord=0.8, off=(5.0, 0.0, 0.6), visc=True, ground=True)]
         self.m = B.AeroModel(self.surfs, mode=self.mode)
         self.pts = AERO_PTS
         a = "aero."
-        self.of = [a + "CL", a + "CD", a + "CM", a + "total_perf.moment.M"]
-        self.wrt = ["alpha", "beta", "v", "rho", "Mach_number", "re", "cg", "wing_mesh", "height_agl"]
+        self.of = [a + "CL", a + "CD", a + "CM", a + "total_perf.moment.M", a + "tail_perf.CL"]
+        self.wrt = ["alpha", "beta", "v", "rho", "Mach_number", "re", "cg", "wing_mesh", "tail_mesh", "height_agl"]
 
     def _as(self, s, npoints=1, **kw):
         self.surfs = [s]
